@@ -80,6 +80,7 @@ type Explorer struct {
 	Mismatch       int
 	ModelRetries   int
 	Failures       []Failure
+	FailHits       int // failed assertion checks outside the known-finding classes
 	KnownHits      map[string]int
 	Reached        map[string]int
 	Samples        []string
@@ -214,6 +215,12 @@ func (ex *Explorer) tape() []TapeEntry {
 // assertion is recorded and execution continues under cond.
 func (ex *Explorer) Assert(cond *Term, id, msg string) {
 	ex.assertPaths[id]++
+	if foreignAssertion(id) {
+		// shared harnesses carry assertions of several properties; each
+		// property's check decides (and reports) its own only
+		ex.dropOnce()
+		return
+	}
 	if cond.IsTrue() {
 		ex.AssertsTrivial++
 		ex.dropOnce()
@@ -256,6 +263,7 @@ func (ex *Explorer) Assert(cond *Term, id, msg string) {
 	switch res {
 	case "sat":
 		ex.FailedIDs[id] = true
+		ex.FailHits++
 		saved := ex.model
 		ex.setModel(m)
 		if len(ex.Failures) < ex.maxFailures {
@@ -284,6 +292,17 @@ func (ex *Explorer) Assert(cond *Term, id, msg string) {
 	ex.dropOnce()
 	// Like a native test, execution continues after a failed assertion and
 	// the path condition is left alone.
+}
+
+// curProp is the property the running check decides ("" = all assertions).
+var curProp string
+
+// foreignAssertion: id has the form "Cnn.…" and names another property.
+func foreignAssertion(id string) bool {
+	if curProp == "" || len(id) < 4 || id[0] != 'C' || id[3] != '.' || id[1] < '0' || id[1] > '9' || id[2] < '0' || id[2] > '9' {
+		return false
+	}
+	return id[:3] != curProp
 }
 
 func (ex *Explorer) dropOnce() {
